@@ -1511,14 +1511,16 @@ theorem C06_metadata_setters (c : PduConfig) (cl : Bool) (ct : Nat) (size : Int)
         · have : ¬ 255 < (nameOctets src).length := by omega
           simp [g, g2, g3, this]
 
-/-- the option classes of the library are valid options: a generic TLV of a standard type, and
-    (through the C08 layout theorems) a valid filestore response / request -/
+/-- the option classes of the library are valid options: a generic TLV of a standard type, a flow
+    label, a message to user, a fault-handler override and (through the C08 layout theorems) a valid
+    filestore response / request -/
 theorem C06_metadata_option_kinds :
     (∀ t : CfdpTlv, C08.WFType t.ttype → C08.WFValue t.value → WFOpt (.generic t)) ∧
     (∀ v : Bytes, C08.WFValue v → WFOpt (.flowLabel ⟨⟨5, v⟩⟩) ∧ WFOpt (.msgToUser ⟨⟨2, v⟩⟩)) ∧
     (∀ r : FileStoreResponseTlv, C08.WFResp r → WFOpt (.fsResponse r)) ∧
-    (∀ r : FileStoreRequestTlv, C08.WFReq r → WFOpt (.fsRequest r)) := by
-  refine ⟨?_, ?_, ?_, ?_⟩
+    (∀ r : FileStoreRequestTlv, C08.WFReq r → WFOpt (.fsRequest r)) ∧
+    (∀ (cc hc : Nat) (b : UInt8), WFOpt (.faultHandler ⟨cc, hc, ⟨4, [b]⟩⟩)) := by
+  refine ⟨?_, ?_, ?_, ?_, ?_⟩
   · intro t ht hv
     have ht' : t.ttype < 256 := by
       simp only [C08.WFType, tlvTypes, List.mem_cons, List.not_mem_nil, or_false] at ht; omega
@@ -1568,6 +1570,10 @@ theorem C06_metadata_option_kinds :
     · rw [hov]; have := wf.2.2.2.2; simpa [C08.Spec.fsRequest, C08.Spec.tlv] using this
     · rw [hov]; exact hv
     · rw [hov]; exact hp
+  · intro cc hc b
+    refine ⟨rfl, (by show (4 : Nat) ∈ tlvTypes; decide), (by show ([b] : Bytes).length ≤ 255; simp), rfl, ?_⟩
+    show CfdpTlv.pack ⟨4, [b]⟩ = _
+    rw [CfdpTlv.pack_eq _ (by simp) (by simp)]; rfl
 
 /-- the decoder fails, for any octet string whatever, only with `ValueError`,
     `UnsupportedCfdpVersion` or `InvalidCrc`; its option loop terminates (well-founded recursion) -/
